@@ -2,3 +2,4 @@
 pub mod gens;
 pub mod memrelay;
 pub mod tcprelay;
+pub mod hooks;
